@@ -853,7 +853,7 @@ package lang
 
 // ---------------------------------------------------------------- members (C09, C20) -- safety and error protocol
 
-//@ func Value.GetMember [C01,C09,C10,C11,C15]
+//@ func Value.GetMember [C01,C04,C07,C09,C10,C11,C15]
 //@   requires v != nil && !$faulted
 //@   updates $faulted
 //@   modifies nothing
@@ -864,6 +864,8 @@ package lang
 //@   ensures[C09] object-own-member: v.Tag == ValueObj && err == nil && has(*v.Obj, specStr(member)) ==> result0 == (*v.Obj)[specStr(member)]
 //@   ensures[C16] object-absent-without-prototype: v.Tag == ValueObj && err == nil && !has(*v.Obj, specStr(member)) && v.Proto == nil ==> result0 == nil
 //@   ensures[C09] string-index: v.Tag == ValueStr && member.Tag == ValueNum ==> err == nil && result0 != nil && fresh(result0)
+//@   ensures[C04,C07] string-index-yields-the-character-of-that-byte: v.Tag == ValueStr && member.Tag == ValueNum && 0 <= int(*member.Num) && int(*member.Num) < len(*v.Str) ==> result0.Value.Tag == ValueStr && *result0.Value.Str == string(int((*v.Str)[int(*member.Num)]))
+//@   ensures[C04,C07] string-index-outside-yields-null: v.Tag == ValueStr && member.Tag == ValueNum && !(0 <= int(*member.Num) && int(*member.Num) < len(*v.Str)) ==> result0.Value.Tag == ValueNil
 //@   ensures[C10] prototype-members-are-handed-out-as-copies: err == nil && result0 != nil && !(v.Tag == ValueArray && member.Tag == ValueNum) && !(v.Tag == ValueObj && has(*v.Obj, specStr(member))) ==> fresh(result0)
 //@   ensures[C09,C11] detached-results-remember-receiver: err == nil && result0 != nil && fresh(result0) && ((v.Tag == ValueStr && member.Tag == ValueNum) || result0.Value.Tag == ValueNativeFn || result0.Value.Tag == ValueFn) ==> result0.Value.ParentObj == v
 //@   ensures[C01] errkind: err == nil || isPlainErr(err)
@@ -901,8 +903,10 @@ package lang
 
 // ---------------------------------------------------------------- drivers (C01, C02, C03, C11)
 
-//@ func NewLexer
-//@   ensures lexok: result.pos == 0 && result.tokenStart == 0 && result.src == src
+// C12/C13: the lexer works on the program text exactly as given (no normalisation of line ends or anything else),
+// so literals denote their bytes and error positions refer to the user's text.
+//@ func NewLexer [C12,C13]
+//@   ensures[C12,C13] the-text-is-lexed-as-given: result.pos == 0 && result.tokenStart == 0 && result.src == src
 //@ spec func listKind(rs []*Rule, k RuleKind) bool = forall i int :: 0 <= i && i < len(rs) ==> rs[i].Kind == k
 //@ spec func rulesByKind(e *Evaluator) bool = listKind(e.beginRules, BeginRule) && listKind(e.beginFileRules, BeginFileRule) && listKind(e.endRules, EndRule) && listKind(e.endFileRules, EndFileRule) && listKind(e.patternRules, PatternRule)
 //@ func Evaluator.readRules [C01,C02]
@@ -1143,6 +1147,7 @@ package lang
 //@   assert[C11] loop-header-outside-loop-context: p.inLoop == old(p.inLoop) && p.inFunction == old(p.inFunction) @ Parser.expression
 //@   ensures[C13] bare-return-ends-its-statement: err == nil && istype(result0, *StatementReturn) && as(result0, *StatementReturn).Expr == nil ==> p.didEndStatement
 //@   ensures[C13] block-ends-its-statement: err == nil && istype(result0, *StatementBlock) ==> p.didEndStatement
+//@   ensures[C07,C19] a-braced-body-is-a-block-statement: err == nil && old(p.current.Tag) == LCurly ==> istype(result0, *StatementBlock)
 //@   ensures ok: parserOK(p)
 //@   ensures previous: err == nil ==> p.previous != nil
 
